@@ -73,8 +73,9 @@ for _n in ("Base", "Sub", "NoP", "BaseR", "SubR", "NoPR", "G", "Src", "SrcSub", 
 FN = {"id": None, "one": GEN.f_one, "lin": GEN.f_lin, "grp": GEN.f_grp, "asdict": None, "tot": GEN.f_tot, "cls": GEN.f_cls}
 
 
-def build(shape):
-    """gamma: shape -> (top parser, parser that holds the arguments)"""
+def build(shape, late=0):
+    """gamma: shape -> top parser.  The last `late` links are not created yet: top._verif_add_late() creates them
+    (a parser that has already parsed once gets another link)."""
     R = "R" if shape["req"] else ""
     top = ArgumentParser(exit_on_error=False, default_env=True, env_prefix="APP")
     p = ArgumentParser(exit_on_error=False, default_env=True, env_prefix="APP") if shape["sub"] else top
@@ -108,12 +109,17 @@ def build(shape):
             p.add_argument("--m", type=List[base])
         else:
             p.add_class_arguments(base, "m")
-    for l in shape["links"]:
-        srcs = tuple({"sl": "s.init_args.limit"}.get(x, x) for x in l["srcs"])
-        tgt = {"t": "t", "d": "d", "mp": "m.p" if shape["mkind"] == "grp" else "m.init_args.p"}[l["tgt"]]
-        p.link_arguments(srcs if len(srcs) > 1 else srcs[0], tgt, FN[l["fn"]])
+    def add(links):
+        for l in links:
+            srcs = tuple({"sl": "s.init_args.limit"}.get(x, x) for x in l["srcs"])
+            tgt = {"t": "t", "d": "d", "mp": "m.p" if shape["mkind"] == "grp" else "m.init_args.p"}[l["tgt"]]
+            p.link_arguments(srcs if len(srcs) > 1 else srcs[0], tgt, FN[l["fn"]])
+
+    n = len(shape["links"]) - late
+    add(shape["links"][:n])
     if shape["sub"]:
         top.add_subcommands().add_subcommand("fit", p)
+    top._verif_add_late = lambda: add(shape["links"][n:])
     return top
 
 
@@ -381,18 +387,30 @@ def run_case(shape, api, items, n=0, do_save=True, do_print=False):
     for k in saved:
         del os.environ[k]
     try:
-        parser = build(shape)
+        # every other case with two or more links: the last link is created after the parser has parsed once
+        late = 1 if len(shape["links"]) >= 2 and n % 2 == 1 else 0
+        parser = build(shape, late)
         env, arg = concretise(shape, api, items, n, write=True)
+        if late:
+            os.environ.update(env)
+            try:
+                parser.parse_args(arg) if api == "args" else parser.parse_object(arg) if api == "object" else parser.parse_string(json.dumps(arg))
+            except BaseException:
+                pass  # e.g. a target that is still required
+            for k in (env or {}):
+                os.environ.pop(k, None)
+            parser._verif_add_late()
+            ob["call"] = "(last link added after a first parse of the same input) "
         try:
             if api == "args":
                 os.environ.update(env)
-                ob["call"] = f"environ {env}; parser.parse_args({arg})"
+                ob["call"] += f"environ {env}; parser.parse_args({arg})"
                 cfg = parser.parse_args(arg)
             elif api == "object":
-                ob["call"] = f"parser.parse_object({arg})"
+                ob["call"] += f"parser.parse_object({arg})"
                 cfg = parser.parse_object(arg)
             else:
-                ob["call"] = f"parser.parse_string({json.dumps(arg)!r})"
+                ob["call"] += f"parser.parse_string({json.dumps(arg)!r})"
                 cfg = parser.parse_string(json.dumps(arg))
         except BaseException as ex:  # the class of the failure is C03's business
             ob["exc"] = f"{type(ex).__name__}: {ex}"[:200]
